@@ -13,7 +13,7 @@ def run(rep):
     # within one instance: simultaneously suspended queries share no variable through a stored fact (C13's contracts)
     from . import enginep
     # evaluate_bounded's TEMPORARY limit is outside the statement; that the interpreter-wide limit is back on every exit edge is not
-    enginep.engine_deductive(rep, enginep.COPY_FUNS + ['engine.YP.assert_fact', 'engine.YP.evaluate_bounded'])
+    enginep.engine_deductive(rep, enginep.COPY_FUNS + ['engine.YP.assert_fact', 'engine.YP.evaluate_bounded', 'engine.YP.query'])
     # "create atoms": the atom table is per instance, private to atom(), and atom() changes nothing but its own key
     enginep.atom_table_deductive(rep)
     q = rep.tier == 'quick'
